@@ -1182,6 +1182,7 @@ public:
 	unsigned iter = 0;
 	bool change = true;
 	while (change || iter > max_fixpo_iters) {
+	  CRAB_VERIF_TICK();
 	  change = false;
 	  for (unsigned i=0, num_sccs=scc_mems.size();i<num_sccs;++i) {
 	    cfg_t cfg = scc_mems[i].get_cfg();
